@@ -202,7 +202,7 @@ def check(ctx, run):
     run.rule("R5", "macro layer (witness unit witness/C03_macros.cpp parsed against the current headers, one function per public check macro, each folded): the expansion calls the assert entry point of its kind exactly once with (expected, actual[, third operand]) in that order, CHECK_FALSE negates, BYTES_EQUAL masks both sides, CHECK_EQUAL/ENUMS_EQUAL report iff the operands differ and count a check otherwise", floor=25)
     macro_layer(ctx, run)
     shell = "UtestShell"
-    run.rule("R4", "PARTITION: the character classifiers the case-insensitive checks rely on (isUpper, ToLower) folded for all 256 char values", floor=2, exhaustive=True)
+    run.rule("R4", "PARTITION: the character classifiers the case-insensitive checks rely on (isUpper, ToLower) folded for all 256 char values", floor=1, exhaustive=True)
     from .shared import char_classifiers
     char_classifiers(prog, run, "R4", which=("isUpper", "ToLower"))
     # ---------------- R1 ----------------------------------------------------
